@@ -692,3 +692,67 @@ def inline_expr(fnode, expr, depth=6, bindings=None):
                 return T(self.d - 1).visit(copy.deepcopy(b[n.id]))
             return n
     return T(depth).visit(copy.deepcopy(expr))
+
+
+def expand_expression_functions(model, mod, expr, depth=3):
+    """copy of expr in which calls of package functions that are one `return E` (after the docstring) are replaced by E with the parameters substituted
+    (arguments must be side-effect free: names, attribute chains, constants).  `zeros_like(self, device=d)` -> `Tensor(np.zeros_like(self.data), dtype=None, ...)`.
+    Names of E that are globals of the callee's module are only kept when they resolve to the same thing in `mod`."""
+    import copy
+
+    def simple(a):
+        return all(isinstance(x, (ast.Name, ast.Attribute, ast.Constant, ast.Load)) for x in ast.walk(a))
+
+    class T(ast.NodeTransformer):
+        def __init__(self, d):
+            self.d = d
+
+        def visit_Call(self, n):
+            self.generic_visit(n)
+            if self.d <= 0:
+                return n
+            q = model.resolve(mod, n.func)
+            f = model.funcs.get(q) if q else None
+            if f is None or f.cls is not None or any(isinstance(a, ast.Starred) for a in n.args) or any(k.arg is None for k in n.keywords):
+                return n
+            body = [st for st in f.node.body if not (isinstance(st, ast.Expr) and isinstance(st.value, ast.Constant))]
+            if len(body) != 1 or not isinstance(body[0], ast.Return) or body[0].value is None or f.node.decorator_list:
+                return n
+            a = f.node.args
+            if a.vararg or a.kwarg or a.posonlyargs:
+                return n
+            params = [x.arg for x in a.args]
+            if len(n.args) > len(params) or not all(simple(x) for x in n.args) or not all(simple(k.value) for k in n.keywords):
+                return n
+            bound = dict(zip(params, n.args))
+            for k in n.keywords:
+                if k.arg in bound or k.arg not in params + [x.arg for x in a.kwonlyargs]:
+                    return n
+                bound[k.arg] = k.value
+            for p_, d_ in zip(params[len(params) - len(a.defaults):], a.defaults):
+                bound.setdefault(p_, d_)
+            for p_, d_ in zip(a.kwonlyargs, a.kw_defaults):
+                if d_ is not None:
+                    bound.setdefault(p_.arg, d_)
+            if any(p_ not in bound for p_ in params + [x.arg for x in a.kwonlyargs]):
+                return n
+            e = copy.deepcopy(body[0].value)
+            # free names of E other than parameters must mean the same in the caller's module
+            for x in ast.walk(e):
+                if isinstance(x, ast.Name) and x.id not in bound and isinstance(x.ctx, ast.Load):
+                    import builtins
+                    if hasattr(builtins, x.id):
+                        continue
+                    if f.mod is not mod and model.resolve(f.mod, x) != model.resolve(mod, x):
+                        return n
+                if isinstance(x, (ast.Lambda, ast.ListComp, ast.GeneratorExp, ast.SetComp, ast.DictComp)):
+                    return n
+
+            class S(ast.NodeTransformer):
+                def visit_Name(self, x):
+                    if x.id in bound and isinstance(x.ctx, ast.Load):
+                        return copy.deepcopy(bound[x.id])
+                    return x
+            e = S().visit(e)
+            return T(self.d - 1).visit(ast.copy_location(e, n))
+    return T(depth).visit(copy.deepcopy(expr))
